@@ -459,11 +459,19 @@ def BASE(value, base, places=DEFAULT):
         return error.NUM
     if value == 0:
         return '0'
+    # several digits per division of the whole number (as many as fit a machine word): one division
+    # per digit made the conversion of a long number take seconds
+    per_step = 1
+    while base ** (per_step + 1) < 2**62:
+        per_step += 1
+    step = base ** per_step
     digits = []
     while value:
-        digits.append('0123456789ABCDEFGHIJKLMNOPQRSTUVWXYZ'[int(value % base)])
-        value //= base
-    result = ''.join(digits[::-1])
+        value, rest = divmod(value, step)
+        for _ in range(per_step):
+            rest, digit = divmod(int(rest), base)
+            digits.append('0123456789ABCDEFGHIJKLMNOPQRSTUVWXYZ'[int(digit)])
+    result = ''.join(digits[::-1]).lstrip('0')
     if places is not DEFAULT:
         if len(result) > places:
             return error.NUM
